@@ -4,7 +4,6 @@
 //! a valid encrypted stream (xor / truncate / splice), which must then be rejected unless unchanged.
 use fuzzlib::KEY;
 use libfuzzer_sys::fuzz_target;
-use savefile::prelude::*;
 use savefile::{CryptoReader, CryptoWriter};
 use std::sync::OnceLock;
 
@@ -33,6 +32,7 @@ fn try_load(bytes: &[u8]) -> Option<Payload> {
 }
 
 fuzz_target!(|data: &[u8]| {
+    fuzzlib::init();
     if data.first() == Some(&0xFF) {
         let (value, good) = valid();
         let mut bytes = good.clone();
